@@ -66,6 +66,9 @@ class Explorer:
         if cond.k == "CXXBoolLiteralExpr":
             v = bool(cond.get("v"))
             return (not v) if neg else v
+        if cond.k == "BinaryOperator" and cond.op == "=" and len(cond.c) == 2:
+            r = self._eval(cond.c[1], s)  # value of a (chained) assignment is the assigned value
+            return None if r is None else ((not r) if neg else r)
         if cond.k == "BinaryOperator" and cond.op in ("&&", "||"):
             a, b = self._eval(cond.c[0], s), self._eval(cond.c[1], s)
             if cond.op == "&&":
